@@ -39,6 +39,25 @@ def run_one(m, keep=False, build=True):
         shutil.copytree(REPO, dst, ignore=shutil.ignore_patterns(".git", "internal/examples", "internal/thirdparty"))
         edits = m.get("edits") or [dict(file=m["file"], old=m["old"], new=m["new"])]
         for e in edits:
+            if "rename" in e:  # whole-tree regex renames: [[pattern, replacement], ...] over every .go file
+                import re
+                hits = 0
+                for root, _, files in os.walk(dst):
+                    for fn in files:
+                        if fn.endswith(".go"):
+                            pth = os.path.join(root, fn)
+                            src = open(pth).read()
+                            new = src
+                            for pat, rep in e["rename"]:
+                                new = re.sub(pat, rep, new)
+                            if new != src:
+                                hits += 1
+                                open(pth, "w").write(new)
+                if hits == 0:
+                    res["status"] = "inapplicable"
+                    res["detail"] = "rename matched nothing"
+                    return res
+                continue
             path = os.path.join(dst, e["file"])
             src = open(path).read()
             if src.count(e["old"]) != 1:
